@@ -32,4 +32,14 @@ def twoDocsAt (attr : String) (doc1 doc2 : Val) : Option (Out Val) :=
   else if attr = "build" then some (twoDocs (transform false p) mk .build doc1 doc2 p)
   else none
 
+/-- the document loop of `loader.loadYamlModel` on whole trees, from the canonical tree of the first document on:
+every further document is merged into the dict (`override.Merge`) and the dict is made canonical again -/
+def loadRest (ign : Bool) : Val → List Val → Out Val
+  | dict, [] => .ok dict
+  | dict, d :: r => bindOut (liftM (Merge.merge dict d)) fun m => bindOut (canonical ign m) fun c => loadRest ign c r
+
+/-- first document, then the rest -/
+def loadDocsC (ign : Bool) (first : Val) (rest : List Val) : Out Val :=
+  bindOut (canonical ign first) fun c => loadRest ign c rest
+
 end CV.Short
